@@ -86,6 +86,21 @@ def cases(draw, tier):
             case["tol_exp"] = min(case["tol_exp"], -8)
     # a real right-hand side (and guess) for a complex operator
     case["rrhs"] = kind == "complex" and draw(st.integers(1, 3)) == 1
+    # round 6: every column of the right-hand side (and of the guess) on its own scale 1e-12..1e6 - the minimiser of a column
+    # scales with it and does not depend on the other columns or on the absolute size of the initial residual
+    if sub in ("minimal", "grade") and not case.get("ascale") and draw(st.integers(1, 3)) == 1:
+        case["colscale"] = [draw(st.sampled_from([-12, -9, -7, -4, 0, 0, 3, 6])) for _ in range(max(nrhs, 1))]
+    # round 6: a Hermitian operator handed over with a true SelfAdjoint / PSD declaration, run long enough (30..n+5 steps,
+    # n 40..90, condition number 1e2..1e3) for any loss of orthogonality in the basis to show in the residual
+    if sub in ("minimal", "grade") and draw(st.integers(1, 12 if tier == "quick" else 6)) == 1:
+        case["kind"] = "herm_ann"
+        case["n"] = n = draw(st.integers(40, 90)) if draw(st.booleans()) else draw(st.integers(2, 30))
+        case["g"] = draw(st.integers(1, n))
+        case["m"] = draw(st.integers(min(30, n), n + 5)) if sub == "minimal" else draw(st.integers(case["g"], n + 5))
+        case["herm"] = {"cplx": draw(st.booleans()), "pos": draw(st.booleans()), "cond_exp": draw(st.sampled_from([1, 2, 3])),
+                        "ann": draw(st.sampled_from(["SelfAdjoint", "PSD"]))}
+        case["tol_exp"] = draw(st.sampled_from([-12, -10]))
+        case.pop("ascale", None)
     case["pbar"] = draw(st.integers(1, 8)) == 1
     case["cx0"] = draw(st.integers(1, 4)) == 1
     return case
@@ -100,7 +115,19 @@ def build(case):
     rng = np.random.default_rng(seed)
     kind = case["kind"]
     cplx = kind == "complex"
-    if kind == "shifted":
+    if kind == "herm_ann":
+        h = case["herm"]
+        cplx = h["cplx"]
+        lam = 4.0 * 10.0 ** (-h["cond_exp"] * rng.random(n))
+        lam[0] = 4.0
+        if n >= 2:
+            lam[1] = 4.0 * 10.0 ** -h["cond_exp"]
+        if not h["pos"]:
+            lam = lam * np.where(rng.random(n) < 0.6, 1, -1)
+        X = KR.rand_unitary(n, seed, cplx)
+        A = (X * lam) @ X.conj().T
+        A = (A + A.conj().T) / 2
+    elif kind == "shifted":
         N = rng.standard_normal((n, n)) / np.sqrt(max(n, 1))
         A = case["shift"] * np.eye(n) + N
         X = np.eye(n)
@@ -174,6 +201,9 @@ def build(case):
         B, X0 = B[:, 0], X0[:, 0]
     if case.get("ascale"):
         A, B = A * 10.0 ** case["ascale"], B * 10.0 ** case["ascale"]
+    if case.get("colscale"):
+        sc = 10.0 ** np.array(case["colscale"], dtype=float)
+        B, X0 = (B * sc[0], X0 * sc[0]) if B.ndim == 1 else (B * sc[None, :], X0 * sc[None, :])
     return A, B, X0, float(np.linalg.cond(X))
 
 
@@ -224,9 +254,12 @@ class InputMutated(Exception):
     pass
 
 
+ANN = [None]
+
+
 def run(A, B, X0, m, tol, x0_none=False):
     from cola.linalg.inverse.gmres import gmres
-    op = KR.counting_operator(A)
+    op = KR.counting_operator(A, annotations=(ANN[0],) if ANN[0] else ())
     Bc, Xc = B.copy(), X0.copy()
     if PBAR[0]:  # the progress-bar option runs the same iteration through another loop wrapper
         with oracle.quiet():
@@ -271,6 +304,13 @@ def check(case, out):
     import cola
     sub = case["sub"]
     PBAR[0] = bool(case.get("pbar"))
+    ANN[0] = None
+    if case["kind"] == "herm_ann" and sub in ("minimal", "grade"):
+        h = case["herm"]
+        ANN[0] = "PSD" if (h["ann"] == "PSD" and h["pos"]) else "SelfAdjoint"
+        out.label("ann:" + ANN[0])
+    if case.get("colscale"):
+        out.label("colscale")
     if PBAR[0]:
         out.label("pbar")
     if sub == "spread":
@@ -338,6 +378,20 @@ def check(case, out):
                 # condition number 1e3: a truncated Krylov space is determined only up to ~cond^m eps, two correct
                 # orthonormalisations span measurably different spaces, so minimality is judged only once the space is full
                 out.label("wide:truncated_not_judged")
+            elif case["kind"] == "herm_ann" and case["rhs"] == "generic" and m >= n:
+                # the Krylov space is the whole space: nothing is ill determined, the residual is at rounding level
+                # (calibrated: <= 5e-12 |r0| over 170 systems with condition numbers 1e2 / 1e3 and m up to n + 4)
+                if r > 1e-8 * r0 + slack(xj, bj):
+                    out.fail(sub, site, "nonzero_full_space", f"col {j}: |r|/|r0| = {r / r0:.3e} with m={m} >= n={n}")
+            elif case["kind"] == "herm_ann" and case["herm"]["cond_exp"] >= 2 and m < n:
+                # a truncated Krylov space of an operator with condition number >= 1e2 is determined to a fraction of a
+                # percent only (see normal_wide), and below ~1e-5 |r0| two correct orthonormalisations differ by factors
+                # (calibrated: ratio <= 1.03 above 1e-6 |r0|, up to 8 below): factor 1.5 above 1e-5 |r0|, factor 30 on
+                # max(minimum, 1e-6 |r0|) below
+                out.label("herm_ann:truncated_judged_loosely")
+                bound = 1.5 * rmin + sl if rmin > 1e-5 * r0 else 30 * max(rmin, 1e-6 * r0) + sl
+                if r > bound:
+                    out.fail(sub, site, "not_minimal", f"col {j}: |r|={r:.6e} vs minimum {rmin:.6e} over K_{m} (dim {dimk}), |r0|={r0:.3e}, n={n} (declared {ANN[0]})")
             elif r > (1 + 1e-6) * rmin + sl:
                 out.fail(sub, site, "not_minimal", f"col {j}: |r|={r:.6e} vs minimum {rmin:.6e} over K_{m} (dim {dimk}), |r0|={r0:.3e}, n={n}")
             if sub == "grade" and m >= grades[j] and r > sl + 1e-6 * r0:
